@@ -99,3 +99,66 @@ def patch_list(obj: "Seq[V]", diff: "Seq[E]") -> "Seq[V]":
     with loop(1, index="k"):
         invariant(newobj == rout(obj, diff[:k]))
         invariant(take == rtake(obj, diff[:k]))
+
+
+# ------------------------------------------------------------------ lemmas about the Run fold
+# (ghost code: proved from the prelude's definitional axioms by the same engine on every run)
+
+@lemma("fold1")
+def fold1(A: "Seq[V]", B: "Seq[V]", f: "fn", D: "Seq[E]", S: "Seq[E]"):
+    requires(len(S) == 1)
+    ensures(rout(A, D + S) == step_out(A, rout(A, D), rtake(A, D), S[0]))
+    ensures(rtake(A, D + S) == step_take(rtake(A, D), S[0]))
+    ensures(al(A, B, D + S, f) == (al(A, B, D, f) and al_step(A, B, f, rtake(A, D), len(rout(A, D)), S[0])))
+    check(S == [S[0]])
+
+
+@lemma("fold2")
+def fold2(A: "Seq[V]", B: "Seq[V]", f: "fn", D: "Seq[E]", S: "Seq[E]"):
+    requires(len(S) == 2)
+    ensures(rout(A, D + S) == step_out(A, rout(A, D + [S[0]]), rtake(A, D + [S[0]]), S[1]))
+    ensures(rtake(A, D + S) == step_take(rtake(A, D + [S[0]]), S[1]))
+    ensures(rout(A, D + [S[0]]) == step_out(A, rout(A, D), rtake(A, D), S[0]))
+    ensures(rtake(A, D + [S[0]]) == step_take(rtake(A, D), S[0]))
+    ensures(al(A, B, D + S, f) == (al(A, B, D, f) and al_step(A, B, f, rtake(A, D), len(rout(A, D)), S[0]) and
+                                   al_step(A, B, f, rtake(A, D + [S[0]]), len(rout(A, D + [S[0]])), S[1])))
+    check(S == [S[0]] + [S[1]])
+    check(D + S == (D + [S[0]]) + [S[1]])
+
+
+# ------------------------------------------------------------------ lcs -> diff
+
+@contract("nbdime.diffing.lcs.diff_from_lcs", properties=["C02", "C11", "C01"])
+def diff_from_lcs(A: "Seq[V]", B: "Seq[V]", A_indices: "Seq[int]", B_indices: "Seq[int]") -> "Seq[E]":
+    ghost(compare="fn")
+    requires(len(A_indices) == len(B_indices))
+    requires(all(0 <= A_indices[r] and A_indices[r] < len(A) and 0 <= B_indices[r] and B_indices[r] < len(B)
+                 for r in range(len(A_indices))))
+    requires(all(A_indices[r] < A_indices[r + 1] and B_indices[r] < B_indices[r + 1]
+                 for r in range(len(A_indices) - 1)))
+    requires(all(cmp(compare, A[A_indices[r]], B[B_indices[r]]) for r in range(len(A_indices))))
+    ensures(wf_seq(result, len(A)))
+    ensures(aligned(A, B, result, compare))
+    finally_check(result == after_loop(1, di._diff) + result[len(after_loop(1, di._diff)):])
+    finally_hint(fold1(A, B, compare, after_loop(1, di._diff), result[len(after_loop(1, di._diff)):]))
+    finally_hint(fold2(A, B, compare, after_loop(1, di._diff), result[len(after_loop(1, di._diff)):]))
+    with loop(1):
+        invariant(N == len(A) and M == len(B) and llcs == len(A_indices))
+        invariant(0 <= x and x <= N and 0 <= y and y <= M)
+        invariant(implies(r == 0, x == 0 and y == 0))
+        invariant(implies(r > 0, x == A_indices[r - 1] + 1 and y == B_indices[r - 1] + 1))
+        invariant(sorted_b(di._diff))
+        invariant(all(wf_entry(di._diff[q], N) for q in range(len(di._diff))))
+        invariant(all(ordered(di._diff[p], di._diff[q]) for p in range(len(di._diff)) for q in range(p + 1, len(di._diff))))
+        invariant(all(di._diff[q].key + span(di._diff[q]) <= x and di._diff[q].key < x or x == 0 for q in range(len(di._diff))))
+        invariant(x > 0 or len(di._diff) == 0)
+        invariant(0 <= rtake(A, di._diff) and rtake(A, di._diff) <= x)
+        invariant(len(rout(A, di._diff)) + x - rtake(A, di._diff) == y)
+        invariant(al(A, B, di._diff, compare))
+        invariant(gap_ok(A, B, compare, rtake(A, di._diff), x, len(rout(A, di._diff))))
+        finally_check(di._diff == at_head(di._diff) + di._diff[len(at_head(di._diff)):])
+        finally_hint(fold1(A, B, compare, at_head(di._diff), di._diff[len(at_head(di._diff)):]))
+        finally_hint(fold2(A, B, compare, at_head(di._diff), di._diff[len(at_head(di._diff)):]))
+        finally_check(0 <= rtake(A, di._diff) and rtake(A, di._diff) <= i)
+        finally_check(len(rout(A, di._diff)) + i - rtake(A, di._diff) == j)
+        finally_check(cmp(compare, A[i], B[j]))
